@@ -7,6 +7,7 @@
 package termincommittee
 
 import (
+	"bytes"
 	"context"
 	"fmt"
 	"github.com/orbs-network/lean-helix-go/instrumentation/metrics"
@@ -424,6 +425,10 @@ func (tic *TermInCommittee) validatePreprepare(ppm *interfaces.PreprepareMessage
 		return errors.Wrapf(err, "verification failed for sender %s signature on header", Str(sender.MemberId()))
 	}
 
+	if !isCanonicallyEncoded(header) {
+		return fmt.Errorf("signed header of the proposal of %s is not canonically encoded", Str(sender.MemberId()))
+	}
+
 	if err := tic.isLeader(sender.MemberId(), ppm.View()); err != nil {
 		tic.logger.ConsensusTrace("failed to verify preprepare - I do not think sender is currently the leader", err, log.Stringable("sender", sender))
 
@@ -431,6 +436,21 @@ func (tic *TermInCommittee) validatePreprepare(ppm *interfaces.PreprepareMessage
 	}
 
 	return nil
+}
+
+// isCanonicallyEncoded tells whether the signed header of a PREPREPARE, PREPARE or COMMIT is encoded exactly the way this
+// library encodes its fields. Prepared proofs and block proofs carry one re-encoded header next to the senders' signatures,
+// so a signature made over any other encoding of the same fields (garbage in alignment bytes, trailing bytes) would make
+// every proof it ends up in unverifiable for whoever receives that proof.
+func isCanonicallyEncoded(header *protocol.BlockRef) bool {
+	canonical := (&protocol.BlockRefBuilder{
+		MessageType: header.MessageType(),
+		InstanceId:  header.InstanceId(),
+		BlockHeight: header.BlockHeight(),
+		View:        header.View(),
+		BlockHash:   header.BlockHash(),
+	}).Build()
+	return bytes.Equal(canonical.Raw(), header.Raw())
 }
 
 func (tic *TermInCommittee) hasPreprepare(blockHeight primitives.BlockHeight, view primitives.View) bool {
@@ -471,6 +491,10 @@ func (tic *TermInCommittee) HandlePrepare(pm *interfaces.PrepareMessage) {
 	}
 	if !proofsvalidator.IsInMembers(tic.committeeMembers, sender.MemberId()) {
 		tic.logger.Info("LHMSG RECEIVED PREPARE IGNORE - sender %s is not a member of the committee", Str(sender.MemberId()))
+		return
+	}
+	if !isCanonicallyEncoded(header) {
+		tic.logger.Info("LHMSG RECEIVED PREPARE IGNORE - signed header of %s is not canonically encoded, its signature could not be carried in a prepared proof", Str(sender.MemberId()))
 		return
 	}
 	if header.View() < tic.State.View() {
@@ -559,6 +583,10 @@ func (tic *TermInCommittee) HandleCommit(cm *interfaces.CommitMessage) {
 	}
 	if !proofsvalidator.IsInMembers(tic.committeeMembers, sender.MemberId()) {
 		tic.logger.Info("LHMSG RECEIVED COMMIT IGNORE - sender %s is not a member of the committee", Str(sender.MemberId()))
+		return
+	}
+	if !isCanonicallyEncoded(header) {
+		tic.logger.Info("LHMSG RECEIVED COMMIT IGNORE - signed header of %s is not canonically encoded, its signature could not be carried in a block proof", Str(sender.MemberId()))
 		return
 	}
 	tic.logger.Debug("LHMSG RECEIVED COMMIT STORE")
